@@ -163,6 +163,11 @@ type ValueOpts struct {
 	DynLeaf  []ref.Kind // leaf kinds of dynamic values (defaults to constructors)
 	LongRaw  bool       // now and then a raw buffer of several thousand bytes (around 4096 and 8192)
 	LongList bool       // now and then a list or map of 100..300 entries (of one kind of dynamic value when the elements are dynamic)
+	// AnyBits: floats are also drawn as arbitrary bit patterns, signalling NaNs
+	// included. Only for paths which never convert between float32 and float64
+	// (the hardware quiets a signalling NaN there, in the harness's own reflect
+	// bridge as well): dynamic values and the reference codec.
+	AnyBits bool
 }
 
 // DefaultValueOpts is a small configuration.
@@ -174,6 +179,9 @@ func DefaultValueOpts() ValueOpts {
 }
 
 var float32Specials = []uint32{0, 0x80000000, 0x7f800000, 0xff800000, 0x7fc00000, 0x7fc00001, 0xffc00000, 0x00000001, 0x7f7fffff, 0x3f800000}
+// signalling NaNs (exponent all ones, quiet bit clear, fraction non-zero)
+var float32Signalling = []uint32{0x7f800001, 0x7fa00000, 0xff812345, 0xffbfffff, 0x7f900000}
+var float64Signalling = []uint64{0x7ff0000000000001, 0x7ff4000000000000, 0xfff0000012345678, 0xfff7ffffffffffff}
 var float64Specials = []uint64{0, 0x8000000000000000, 0x7ff0000000000000, 0xfff0000000000000, 0x7ff8000000000000, 0x7ff8000000000001, 1, 0x7fefffffffffffff, 0x3ff0000000000000}
 
 // Str generates strings: empty, ascii, multi-byte.
@@ -286,11 +294,31 @@ func drawValue(t *rapid.T, ty *ref.Type, o ValueOpts, dyn int) interface{} {
 	case ref.KUint64:
 		return rapid.Uint64().Draw(t, "L")
 	case ref.KFloat32:
+		if o.AnyBits {
+			switch rapid.IntRange(0, 7).Draw(t, "fbitskind") {
+			case 0:
+				return math.Float32frombits(rapid.SampledFrom(float32Signalling).Draw(t, "fsnan"))
+			case 1:
+				return math.Float32frombits(rapid.Uint32().Draw(t, "fanybits"))
+			case 2: // a NaN with an arbitrary payload and quiet bit
+				return math.Float32frombits(0x7f800000 | rapid.Uint32().Draw(t, "fnanbits"))
+			}
+		}
 		if rapid.IntRange(0, 3).Draw(t, "fspecial") == 0 {
 			return math.Float32frombits(rapid.SampledFrom(float32Specials).Draw(t, "fbits"))
 		}
 		return rapid.Float32().Draw(t, "f")
 	case ref.KFloat64:
+		if o.AnyBits {
+			switch rapid.IntRange(0, 7).Draw(t, "dbitskind") {
+			case 0:
+				return math.Float64frombits(rapid.SampledFrom(float64Signalling).Draw(t, "dsnan"))
+			case 1:
+				return math.Float64frombits(rapid.Uint64().Draw(t, "danybits"))
+			case 2:
+				return math.Float64frombits(0x7ff0000000000000 | rapid.Uint64().Draw(t, "dnanbits"))
+			}
+		}
 		if rapid.IntRange(0, 3).Draw(t, "dspecial") == 0 {
 			return math.Float64frombits(rapid.SampledFrom(float64Specials).Draw(t, "dbits"))
 		}
